@@ -735,7 +735,14 @@ cdef class Writer:
     def write(self, record):
         if self.validate_fn:
             self.validate_fn(record, self.schema, self._named_schemas, "", True, self.options)
-        write_data(self.io.value, record, self.schema, self._named_schemas, "", self.options)
+        start = self.io.tell()
+        try:
+            write_data(self.io.value, record, self.schema, self._named_schemas, "", self.options)
+        except Exception:
+            # Drop what was encoded of the rejected record so that it cannot
+            # end up in the block in front of the next record
+            del self.io.value[start:]
+            raise
         self.block_count += 1
         if self.io.tell() >= self.sync_interval:
             self.dump()
